@@ -4,141 +4,13 @@ for the branches of the .ts parser loop.  Recorded with `python -m translator.ts
 re-record only after re-validating the model (coq/C18/Model.v) against the new source."""
 PINS = {
     'nf._load_dataset':
-        'sha256:451221ed92b5559b07a7711a8761ca1ad1c2efbd82a167ec723be4f9e786817e',
+        'sha256:00d580334d4c5de87b3579724850421bab5c84e6457a97ce146881095979acf1',
     'nf.load_from_arff_to_dataframe':
-        'sha256:a5949f745cce58069aff893b9f30ccef6c0c2df7165042cc6feb70ce0d43e912',
+        'sha256:5e4ff69970ef7d835739db343cbf5951318aeaa57f391c17ff962b836e73157e',
+    'nf.load_from_tsfile_to_dataframe':
+        'sha256:8fc7da0af311d6b7d44bf31ec7ce026e9e37bb97756f724b3be56d68126070b3',
     'nf.load_from_ucr_tsv_to_dataframe':
         'sha256:171895c2a809d603e8f74b6514ec1cabd6986d657133c1a54e49039982c32550',
     'nf.write_dataframe_to_tsfile':
-        'sha256:dd763613d12d991c35f66b4f6134d863d010fd37fcc183400d9fb1dc325f5699',
-    'parser.branch[@classlabel]':
-        'if data_started:\n'
-        "    raise TsFileParseException('metadata must come before data')\n"
-        "tokens = line.split(' ')\n"
-        'token_len = len(tokens)\n'
-        'if token_len == 1:\n'
-        "    raise TsFileParseException('classlabel tag requires an associated Boolean  value')\n"
-        "if tokens[1] == 'true':\n"
-        '    class_labels = True\n'
-        "elif tokens[1] == 'false':\n"
-        '    class_labels = False\n'
-        'else:\n'
-        "    raise TsFileParseException('invalid classLabel value')\n"
-        'if token_len == 2 and class_labels:\n'
-        "    raise TsFileParseException('if the classlabel tag is true then class values must be supplied')\n"
-        'has_class_labels_tag = True\n'
-        'class_label_list = [token.strip() for token in tokens[2:]]\n'
-        'metadata_started = True',
-    'parser.branch[@data]':
-        "if line != '@data':\n"
-        "    raise TsFileParseException('data tag should not have an associated value')\n"
-        'if data_started and (not metadata_started):\n'
-        "    raise TsFileParseException('metadata must come before data')\n"
-        'else:\n'
-        '    has_data_tag = True\n'
-        '    data_started = True',
-    'parser.branch[@problemname]':
-        'if data_started:\n'
-        "    raise TsFileParseException('metadata must come before data')\n"
-        "tokens = line.split(' ')\n"
-        'token_len = len(tokens)\n'
-        'if token_len == 1:\n'
-        "    raise TsFileParseException('problemname tag requires an associated value')\n"
-        'has_problem_name_tag = True\n'
-        'metadata_started = True',
-    'parser.branch[@timestamps]':
-        'if data_started:\n'
-        "    raise TsFileParseException('metadata must come before data')\n"
-        "tokens = line.split(' ')\n"
-        'token_len = len(tokens)\n'
-        'if token_len != 2:\n'
-        "    raise TsFileParseException('timestamps tag requires an associated Boolean value')\n"
-        "elif tokens[1] == 'true':\n"
-        '    timestamps = True\n'
-        "elif tokens[1] == 'false':\n"
-        '    timestamps = False\n'
-        'else:\n'
-        "    raise TsFileParseException('invalid timestamps value')\n"
-        'has_timestamps_tag = True\n'
-        'metadata_started = True',
-    'parser.branch[@univariate]':
-        'if data_started:\n'
-        "    raise TsFileParseException('metadata must come before data')\n"
-        "tokens = line.split(' ')\n"
-        'token_len = len(tokens)\n'
-        'if token_len != 2:\n'
-        "    raise TsFileParseException('univariate tag requires an associated Boolean  value')\n"
-        "elif tokens[1] == 'true':\n"
-        '    pass\n'
-        "elif tokens[1] == 'false':\n"
-        '    pass\n'
-        'else:\n'
-        "    raise TsFileParseException('invalid univariate value')\n"
-        'has_univariate_tag = True\n'
-        'metadata_started = True',
-    'parser.finish':
-        'if line_num:\n'
-        '    if metadata_started and (not (has_problem_name_tag and has_timestamps_tag and has_univariate_tag and has_class_labels_tag and has_data_tag)):\n'
-        "        raise TsFileParseException('metadata incomplete')\n"
-        '    elif metadata_started and (not data_started):\n'
-        "        raise TsFileParseException('file contained metadata but no data')\n"
-        '    elif metadata_started and data_started and (len(instance_list) == 0):\n'
-        "        raise TsFileParseException('file contained metadata but no data')\n"
-        '    data = pd.DataFrame(dtype=np.float32)\n'
-        '    for dim in range(0, num_dimensions):\n'
-        "        data['dim_' + str(dim)] = instance_list[dim]\n"
-        '    if class_labels:\n'
-        '        if return_separate_X_and_y:\n'
-        '            return (data, np.asarray(class_val_list))\n'
-        '        else:\n'
-        "            data['class_vals'] = pd.Series(class_val_list)\n"
-        '            return data\n'
-        '    else:\n'
-        '        return data\n'
-        'else:\n'
-        "    raise TsFileParseException('empty file')",
-    'parser.init':
-        'metadata_started = False\n'
-        'data_started = False\n'
-        'has_problem_name_tag = False\n'
-        'has_timestamps_tag = False\n'
-        'has_univariate_tag = False\n'
-        'has_class_labels_tag = False\n'
-        'has_data_tag = False\n'
-        'previous_timestamp_was_int = None\n'
-        'prev_timestamp_was_timestamp = None\n'
-        'num_dimensions = None\n'
-        'is_first_case = True\n'
-        'instance_list = []\n'
-        'class_val_list = []\n'
-        'line_num = 0',
-    'parser.metadata_check':
-        'if not has_problem_name_tag or not has_timestamps_tag or (not has_univariate_tag) or (not has_class_labels_tag) or (not has_data_tag):\n'
-        "    raise TsFileParseException('a full set of metadata has not been provided before the data')",
-    'parser.open':
-        "open(full_file_path_and_name, 'r', encoding='utf-8') as file",
-    'parser.untimestamped_case':
-        "dimensions = line.split(':')\n"
-        'if is_first_case:\n'
-        '    num_dimensions = len(dimensions)\n'
-        '    if class_labels:\n'
-        '        num_dimensions -= 1\n'
-        '    for _dim in range(0, num_dimensions):\n'
-        '        instance_list.append([])\n'
-        '    is_first_case = False\n'
-        'this_line_num_dim = len(dimensions)\n'
-        'if class_labels:\n'
-        '    this_line_num_dim -= 1\n'
-        'if this_line_num_dim != num_dimensions:\n'
-        "    raise TsFileParseException('inconsistent number of dimensions. Expecting ' + str(num_dimensions) + ' but have read ' + str(this_line_num_dim))\n"
-        'for dim in range(0, num_dimensions):\n'
-        '    dimension = dimensions[dim].strip()\n'
-        '    if dimension:\n'
-        "        data_series = dimension.split(',')\n"
-        '        data_series = [float(i) for i in data_series]\n'
-        '        instance_list[dim].append(pd.Series(data_series))\n'
-        '    else:\n'
-        "        instance_list[dim].append(pd.Series(dtype='object'))\n"
-        'if class_labels:\n'
-        '    class_val_list.append(dimensions[num_dimensions].strip())',
+        'sha256:fb7591334aa395d68dc03055c7b03aa28045989441746a7421dee8ee4de087d2',
 }
